@@ -8,12 +8,17 @@ ASSUMPTIONS = [
     "UPGrad/DualProj: solve_qp is the KKT contract stub; CAGrad: cvxpy is the first-order-optimality contract stub; svd kernels answered from the eigenbasis of the spectral domain",
     "MGDA: the min-norm point of the hull is an existential witness b (simplex point satisfying the variational inequality (G b)_k >= b^T G b); "
     "the O(1/k) sub-optimality rate 8 s^2/(max_iters+2) is checked for max_iters <= 2 at m = 2 only; the general rate is a convergence theorem, outside this technique",
+    "MGDA at m = 3 (max_iters = 1 on the free Gramian domain, max_iters <= 2 on one-parameter families: an integer 3-row matrix with one row multiplied by a symbolic t > 0): "
+    "the code-dependent half of the clause is decided - the returned weights lie in the simplex; that every simplex point satisfies the clause is mathematics "
+    "(<g_i,p> >= |p|^2 >= 0 at the min-norm point p, |A-p|^2 <= |A|^2-|p|^2, Cauchy-Schwarz - the latter discharged by the solver, the assembly is by hand: z3 leaves it undecided). "
+    "On the families the clause AS STATED is also given to the solver as a search-only obligation (a model is a violation; unsat/unknown conclude nothing)",
     "the exhaustive {-1,0,1} matrices up to 3x3 of the quantifier are points of the symbolic Gramian domain for m <= 2 (m = 3 for UPGrad/DualProj is out of the solver's reach and follows only by composition with C03)",
 ]
 
 
 def bounds(tier):
-    return dict(upgrad_dualproj_m=[1, 2], mgda=dict(m=2, max_iters=[1, 2]), cagrad=dict(m=2, c="symbolic >= 1"), s_ge_norm_eps=True)
+    return dict(upgrad_dualproj_m=[1, 2], mgda=dict(m=2, max_iters=[1, 2]), mgda_m3=dict(simplex_membership="free Gramians, max_iters=1; scaled-row families, max_iters<=2", families=len(BASE_ROWS_M3) * 3),
+                cagrad=dict(m=2, c="symbolic >= 1"), s_ge_norm_eps=True)
 
 
 def cases(tier):
@@ -25,6 +30,11 @@ def cases(tier):
     for it in (1, 2):
         cs.append(dict(name=f"mgda_m2_it{it}", fn="mgda", args=dict(m=2, iters=it), weight=4 * it))
         cs.append(dict(name=f"mgda_rate_m2_it{it}", fn="mgda_rate", args=dict(m=2, iters=it), weight=6 * it))
+    cs.append(dict(name="mgda_simplex_m3_it1", fn="mgda_rowbound", args=dict(m=3, iters=1), weight=12))
+    for it in (1, 2):
+        cs.append(dict(name=f"mgda_scaled_family_m3_it{it}", fn="mgda_scaled_family", args=dict(iters=it), weight=6))
+        cs.append(dict(name=f"mgda_scaled_family_search_m3_it{it}", fn="mgda_scaled_family", args=dict(iters=it, hunt=True), weight=6, timeout_ms=4000, budget_s=90, hunt_only=True))
+    cs.append(dict(name="cauchy_schwarz_lemma_m3", fn="cauchy_schwarz_lemma", args=dict(m=3), weight=3))
     cs.append(dict(name="cagrad_m2", fn="cagrad", args=dict(m=2), weight=9))
     return cs
 
@@ -90,6 +100,102 @@ def case_mgda(sp, m, iters):
     for i in range(m):
         obs.append(Ob("J_A(J)_ge_minus_s_sqrt_suboptimality", z3.Or((Ga[i] >= 0).z(), (Ga[i] * Ga[i] <= s2 * (qa - qb)).z()), cex))
     return obs
+
+
+def case_mgda_rowbound(sp, m, iters, hunt=False):
+    """MGDA's clause at m = 3, where the direct statement (largest singular value + min-norm witness + Frank-Wolfe steps) leaves z3 undecided.
+    Decomposed into (A) what depends on the code: the returned weights lie in the simplex - decided here on the free Gramian domain; and
+    (B) mathematics: for EVERY a in the simplex, (G a)_i >= -|g_i| sqrt(qa - qb) with |g_i|^2 = G_ii <= s^2, which implies the stated clause
+    (cases mgda_hull_lemma / cauchy_schwarz_lemma).  In addition the stated clause itself is given to the solver as a SEARCH-ONLY obligation
+    (s^2 over-approximated by trace(G), so that any model is a violation of the clause as stated): it finds witnesses on broken code."""
+    set_kernels()
+    G = free_gram(m)
+    e = named("epsilon")
+    assume(e >= 0)
+    out = MGDA(epsilon=e, max_iters=iters)(gram_only(G))
+    a = out._w._flat()
+    Ga = [rsum(G[i][j] * a[j] for j in range(m)) for i in range(m)]
+    qa = rsum(a[i] * Ga[i] for i in range(m))
+    def cex(model):
+        return dict(kind="non_conflict", agg="mgda", iters=iters, **cex_values(model, G=G, epsilon=e, weights_model=a))
+    if not hunt:
+        return [Ob("mgda_weights_in_simplex", z3.And(rsum(a).eqz(1), *[(x >= 0).z() for x in a]), cex)]
+    # search-only: a model is a violation of the clause AS STATED.  min-norm^2 >= L_k := 2 min_j G_jk - G_kk for every vertex e_k (a^T G a >=
+    # 2 a^T G e_k - G_kk on the simplex) and s^2 <= trace(G), hence allowance^2 <= trace(G) (qa - L_k): no witness variables are needed.
+    tr = rsum(G[i][i] for i in range(m))
+    bad = []
+    for k in range(m):
+        for jmin in range(m):
+            Lk = 2 * G[jmin][k] - G[k][k]
+            is_min = z3.And(*[(G[jmin][k] <= G[j][k]).z() for j in range(m) if j != jmin])
+            for i in range(m):
+                bad.append(z3.And(is_min, (Ga[i] < 0).z(), z3.Or((qa < Lk).z(), (Ga[i] * Ga[i] > tr * (qa - Lk)).z())))
+    return [Ob("J_A(J)_ge_minus_s_sqrt_suboptimality", z3.Not(z3.Or(*bad)), cex, hunt=True)]
+
+
+BASE_ROWS_M3 = [[[1, 0], [1, 1], [1, -1]], [[1, 1], [2, 1], [2, -1]], [[1, 0, 0], [1, 1, 0], [1, 1, 1]], [[1, 1, 0], [-1, 1, 0], [0, 1, 1]], [[2, 1], [1, 2], [1, -1]]]
+
+
+def case_mgda_scaled_family(sp, iters, hunt=False):
+    """badly scaled inputs at m = 3 on one-parameter families: a concrete integer matrix with ONE row multiplied by a symbolic t > 0 (all positions,
+    a few base matrices).  Queries are univariate, which nlsat decides at once - also the satisfiable ones, so this is where witnesses are found
+    when the code is broken.  Obligations: weights in the simplex; search-only: the clause as stated (see case_mgda_rowbound)."""
+    set_kernels()
+    m = 3
+    J0 = BASE_ROWS_M3[choice(len(BASE_ROWS_M3), "base_matrix")]
+    r = choice(m, "scaled_row")
+    t = named("t")
+    assume(t > 0)
+    J = [[(t * x if i == r else R(x)) for x in row] for i, row in enumerate(J0)]
+    G = [[rsum(J[i][k] * J[j][k] for k in range(len(J0[0]))) for j in range(m)] for i in range(m)]
+    e = named("epsilon")
+    assume(e >= 0)
+    out = MGDA(epsilon=e, max_iters=iters)(gram_only(G))
+    a = out._w._flat()
+    Ga = [rsum(G[i][j] * a[j] for j in range(m)) for i in range(m)]
+    qa = rsum(a[i] * Ga[i] for i in range(m))
+    def cex(model):
+        return dict(kind="non_conflict", agg="mgda", iters=iters, **cex_values(model, G=G, epsilon=e, weights_model=a))
+    if not hunt:
+        return [Ob("mgda_weights_in_simplex", z3.And(rsum(a).eqz(1), *[(x >= 0).z() for x in a]), cex)]
+    tr = rsum(G[i][i] for i in range(m))
+    bad = []
+    for k in range(m):
+        for jmin in range(m):
+            Lk = 2 * G[jmin][k] - G[k][k]
+            is_min = z3.And(*[(G[jmin][k] <= G[j][k]).z() for j in range(m) if j != jmin])
+            for i in range(m):
+                bad.append(z3.And(is_min, (Ga[i] < 0).z(), z3.Or((qa < Lk).z(), (Ga[i] * Ga[i] > tr * (qa - Lk)).z())))
+    return [Ob("J_A(J)_ge_minus_s_sqrt_suboptimality", z3.Not(z3.Or(*bad)), cex, hunt=True)]
+
+
+def case_mgda_hull_lemma(sp, m):
+    """NOT REGISTERED (z3 leaves it undecided at m = 3 within 60 s; it is code-independent mathematics, proved by hand in case_mgda_rowbound's docstring).
+    (B): for every PSD G, every a in the simplex and the min-norm witness b (variational inequality): (G a)_i >= 0 or (G a)_i^2 <= G_ii (qa - qb).
+    Cauchy-Schwarz in Gram form is given as a lemma instance at d = a - b (discharged on its own in case cauchy_schwarz_lemma)."""
+    G = free_gram(m)
+    a = [named(f"a{i}") for i in range(m)]
+    for x in a:
+        assume(x >= 0)
+    assume(rsum(a).eqz(1))
+    b, qb = _minnorm_witness(G, m)
+    Ga = [rsum(G[i][j] * a[j] for j in range(m)) for i in range(m)]
+    qa = rsum(a[i] * Ga[i] for i in range(m))
+    d = [a[j] - b[j] for j in range(m)]
+    Gd = [rsum(G[i][j] * d[j] for j in range(m)) for i in range(m)]
+    dGd = rsum(d[i] * Gd[i] for i in range(m))
+    for i in range(m):
+        assume(Gd[i] * Gd[i] <= G[i][i] * dGd)
+    return [Ob("hull_point_row_bound", z3.Or((Ga[i] >= 0).z(), (Ga[i] * Ga[i] <= G[i][i] * (qa - qb)).z()), None) for i in range(m)]
+
+
+def case_cauchy_schwarz_lemma(sp, m):
+    """(e_i^T G d)^2 <= G_ii d^T G d for every PSD G (principal minors >= 0) and every vector d"""
+    G = free_gram(m)
+    d = [named(f"d{j}") for j in range(m)]
+    Gd = [rsum(G[i][j] * d[j] for j in range(m)) for i in range(m)]
+    dGd = rsum(d[i] * Gd[i] for i in range(m))
+    return [Ob("cauchy_schwarz_gram_form", (Gd[i] * Gd[i] <= G[i][i] * dGd).z(), None) for i in range(m)]
 
 
 def case_mgda_rate(sp, m, iters):
